@@ -293,6 +293,10 @@ func runCheck(cmd, prop, tier, repo, root, only string, keep, verbose, writeExpe
 					rc.Solver += "(focused)"
 					best, allr = rc, []SolverResult{rc}
 					provedQuery = qc
+				} else if rs, ok := splitDischarge(o, smtDir, 8, true); ok {
+					// the same, one case per branch of the join the obligation sits behind
+					best, allr = rs, []SolverResult{rs}
+					provedQuery = qc
 				}
 			}
 			if best.Result != "unsat" && len(o.Ctx.qaxioms) > 0 {
@@ -340,7 +344,7 @@ func runCheck(cmd, prop, tier, repo, root, only string, keep, verbose, writeExpe
 				// as undischarged right away (never used for the registered checks)
 				best.Result = "unknown"
 			} else if best.Result != "unsat" && best.Result != "sat" {
-				if r, ok := splitDischarge(o, smtDir, max(3, timeout/2)); ok {
+				if r, ok := splitDischarge(o, smtDir, max(3, timeout/2), false); ok {
 					best = r
 					allr = append(allr, r)
 				} else {
